@@ -238,6 +238,27 @@ def rule_local(run):
     ap = gen.func("ConvertInstance.apply")
     applied = any(isinstance(c.func, ast.Attribute) and c.func.attr in ("visit_objects", "visit_referenced_objects") and c.args and dotted(c.args[0]) == chk.node.name for c in calls_in(ap.node))
     run.ob(applied, "ConvertInstance.apply[Concurrent]", file=gen.rel, line=ap.node.lineno, detail="applied", expected="check applied to the whole concurrent context", found="ok" if applied else "not applied")
+    # everything the back end emits as CONCURRENT statements (outside of any process) is free of process variables:
+    # besides concurrent contexts that is the always block of a sequential context
+    asm = run.idx.mod("cohdl/_compiler/backend/vhdl/_vhdl_assembler.py")
+    conc_srcs = []
+    for c in ast.walk(asm.tree):
+        if isinstance(c, ast.Call) and isinstance(c.func, ast.Attribute) and c.func.attr == "convert_stmt" and any(k.arg == "context" and (dotted(k.value) or "").endswith("CONCURRENT") for k in c.keywords) and c.args:
+            conc_srcs.append(c)
+    always_sites = [c for c in conc_srcs if "_always_expr" in src(c.args[0])]
+    if not conc_srcs:
+        raise AnalysisError("assembler: no statement is converted with context=Context.CONCURRENT")
+    for c in always_sites:
+        # the IR generator must run a no-Variable traversal over <sequential>._always_expr
+        found = None
+        for call in calls_in(ap.node):
+            if isinstance(call.func, ast.Attribute) and call.func.attr in ("visit_objects", "visit_referenced_objects") and "_always_expr" in src(call.func.value) and call.args and isinstance(call.args[0], ast.Name):
+                cb = gen.functions.get(f"ConvertInstance.apply.<locals>.{call.args[0].id}")
+                if cb is not None and unconditional_stmt(cb.node, lambda st: isinstance(st, ast.Assert) and src(st.test) == "not isinstance(obj, Variable)") is not None:
+                    found = call
+        run.ob(found is not None, "ConvertInstance.apply[Sequential]", file=gen.rel, line=(found.lineno if found else ap.node.lineno), detail="always-block-no-variables",
+               expected="the always block (emitted as concurrent statements by the assembler) is traversed with an unconditional `assert not isinstance(obj, Variable)`",
+               found="ok" if found else f"no such traversal of `_always_expr`: a Variable read in `with cohdl.always:` is referenced outside the process that declares it ({asm.rel}:{c.lineno})")
     ft = gen.func("IrGenerator.convert_sequential.<locals>.find_temporaries")
     top = [s for s in ft.node.body if isinstance(s, ast.If)]
     ok = bool(top) and P.T(top[0].test) == "isinstance(obj, Temporary)"
